@@ -131,9 +131,9 @@ inline ref::Pos mirrorFiles(const ref::Pos& p) { // only for positions without c
     return r;
 }
 
-enum Tmpl { M_BACKRANK = 0, M_SMOTHER1, M_SMOTHER2, M_SMOTHER3, M_PROMO_Q, M_PROMO_N, M_EP, M_DISCOVERED, M_DOUBLE, M_CASTLE_K, M_CASTLE_Q, M_LADDER, M_KQ, M_EP_DEFENCE, M_NTMPL };
+enum Tmpl { M_BACKRANK = 0, M_SMOTHER1, M_SMOTHER2, M_SMOTHER3, M_PROMO_Q, M_PROMO_N, M_EP, M_DISCOVERED, M_DOUBLE, M_CASTLE_K, M_CASTLE_Q, M_LADDER, M_KQ, M_EP_DEFENCE, M_SEE_DEFENCE, M_NTMPL };
 inline const char* tmplName(int t) {
-    static const char* n[] = {"backrank", "smother1", "smother2", "smother3", "promo-q", "promo-n", "ep", "discovered", "double", "castle-k", "castle-q", "ladder", "kq", "ep-defence"};
+    static const char* n[] = {"backrank", "smother1", "smother2", "smother3", "promo-q", "promo-n", "ep", "discovered", "double", "castle-k", "castle-q", "ladder", "kq", "ep-defence", "see-defence"};
     return n[t];
 }
 
@@ -219,6 +219,23 @@ inline ref::Pos buildTemplate(Choices& c, int t, bool& mirrorOk) {
         if (c.chance(1, 3)) put(p, c.flip() ? "a7" : "b6", 'p');
         if (c.chance(1, 3)) put(p, c.flip() ? "a2" : "b3", 'P');
         if (c.chance(1, 4)) { put(p, "c8", 'b'); put(p, "d7", 'p'); }
+        break;
+    }
+    case M_SEE_DEFENCE: {
+        // not a mate: the smothered-mate check Nf7+ is answered by taking the protected knight with a more valuable man
+        // (the only defence, and a capture that loses material by static exchange).  An engine whose check evasions in
+        // quiescence skip such captures announces a false mate.
+        put(p, "h8", 'k'); put(p, "g8", c.chance(3, 4) ? 'r' : 'b'); put(p, "g7", 'p'); put(p, "h7", 'p');
+        static const char* from[] = {"h6", "g5", "e5", "d6", "d8"};
+        put(p, from[c.pick(5)], 'N');
+        static const char* prot[] = {"c4", "b3", "a2", "d5"};
+        put(p, prot[c.pick(4)], c.chance(2, 3) ? 'B' : 'Q');
+        struct Def { const char* sq; char pc; };
+        static const Def defs[] = {{"e7", 'q'}, {"e8", 'q'}, {"d7", 'q'}, {"f6", 'q'}, {"c7", 'q'}, {"e7", 'r'}, {"f6", 'r'}, {"f5", 'r'}, {"b7", 'r'}};
+        const Def& d = defs[c.pick(9)];
+        if (p.b[sq(d.sq)] == '.') put(p, d.sq, d.pc);
+        p.b[gen::emptySquare(c, p, 0, 1)] = 'K';
+        noise(c, p, c.range(0, 2), "PPpp", 1, 3);
         break;
     }
     case M_DISCOVERED: case M_DOUBLE: {
